@@ -24,6 +24,21 @@ int main(void) {
   printf("table vnumsize_at_pow128");
   for (int k = 1; k <= 9; ++k) { uint64_t t = 1ULL << (7 * k); printf(" %d %d", (int) IW_VNUMSIZE(t - 1), (int) IW_VNUMSIZE(t)); }
   printf("\n");
+  /* the step function IW_VNUMSIZE as compiled: every n at which the value changes (search assumes it is monotone; the
+     samples at all powers of two below let the generator reject a macro that is not) */
+  printf("table vnum_steps %d", (int) IW_VNUMSIZE(0ULL));
+  for (uint64_t lo = 0;;) {
+    int cur = (int) IW_VNUMSIZE(lo);
+    if ((int) IW_VNUMSIZE(UINT64_MAX) == cur) break;
+    uint64_t a = lo, b = UINT64_MAX;           /* size(a) == cur, size(b) != cur */
+    while (b - a > 1) { uint64_t m = a + (b - a) / 2; if ((int) IW_VNUMSIZE(m) == cur) a = m; else b = m; }
+    printf(" %llu %d", (unsigned long long) b, (int) IW_VNUMSIZE(b));
+    lo = b;
+  }
+  printf("\n");
+  printf("table vnum_pow2");
+  for (int k = 0; k < 64; ++k) { uint64_t t = 1ULL << k; printf(" %d %d", (int) IW_VNUMSIZE(t - 1), (int) IW_VNUMSIZE(t)); }
+  printf("\n");
   printf("table ascii2hex"); for (size_t i = 0; i < sizeof(ascii2hex); ++i) printf(" %u", ascii2hex[i]); printf("\n");
   return 0;
 }
